@@ -13,7 +13,7 @@ def fields(s):
     for i, part in enumerate(x.strip() for x in s.split(' ; ')):
         d[i] = part
         w = part.split(' ', 1)
-        if w[0] in ('pre', 'post', 'chk', 'fold', 'idem', 'nodes', 'if3', 'pur', 'rp'): d[w[0]] = w[1] if len(w) > 1 else ''
+        if w[0] in ('pre', 'post', 'chk', 'fold', 'idem', 'nodes', 'if3', 'pur', 'rp', 'exec', 'exec2', 'opt', 'bool'): d[w[0]] = w[1] if len(w) > 1 else ''
     return d
 def pick(*keys):
     def view(s):
@@ -34,7 +34,7 @@ def v_tmrange(s):
     return ' '.join(s.strip().split(' ')[:4])
 VIEWS = {'tmrange': v_tmrange, 'jsonclass': v_jsonclass, 'first': v_first, 'okfull': v_okfull, 'full': v_full, 'result': v_result, 'class': v_class, 'kind': v_kind,
          'opt_c05': pick(0, 'pre', 'post'), 'opt_c06': pick(0, 1, 'fold', 'idem', 'nodes', 'pur'), 'opt_c10': pick('chk'),
-         'chk': pick(0), 'chk_exec': pick(0, 1), 'chkbool': pick(0, 1, 'rp')}
+         'chk': pick(0), 'chk_exec': pick(0, 1), 'script_exec': pick(0, 'exec'), 'script_opt': pick(0, 'opt', 'exec', 'exec2'), 'script_chk': pick(0, 'chk', 'bool', 'exec'), 'chkbool': pick(0, 1, 'rp')}
 
 def classify(stream, line, exp):
     """coarse class of a case, for the input-distribution table in the evidence"""
@@ -47,6 +47,9 @@ def classify(stream, line, exp):
     if stream.startswith('opt'):
         d = fields(exp)
         return f"{d[0].split(' ')[0]} traced={d.get(1, '-') != '-'} if3={d.get('if3')} resolved={d.get('chk', '? ?')[0]} folded={d.get('nodes', '0 0').split(' ')[0] != d.get('nodes', '0 0').split(' ')[-1]}"
+    if stream == 'script':
+        d = fields(exp)
+        return 'compile ' + exp.split(' ')[0] + ' ' + ' '.join(d.get('exec', '').split(' ')[:2])
     if stream.startswith('chk'):
         d = fields(exp)
         return ' '.join(d[0].split(' ')[:2]) + ' / ' + ' '.join(d.get(1, '').split(' ')[:2])
@@ -178,5 +181,28 @@ def law_tmrange(lines, exp):
                 except Exception: pass
             yield (k, line, e + (' (' + first + ')' if first else ''), 'viol 0: every date / millisecond / combination of the range encodes exactly and decodes to its components')
 
-LAWS = {'tmrange': law_tmrange, 'c10_dcall': law_c10_dcall, 'stable': law_stable, 'json_same': law_json_same, 'c05': law_c05, 'c06': law_c06, 'c10': law_c10, 'c10_opt': law_c10_opt, 'c11': law_c11,
+def law_script_c05(lines, exp):
+    # validated script (all names resolve): a value before optimize is the identical value after
+    for k, (line, e) in enumerate(zip(lines, exp)):
+        d = fields(e)
+        if d.get('chk') == 'ok' and d.get('exec', '').startswith('ok') and d.get('exec2') != d.get('exec'):
+            yield (k, line, e, 'validated script: value after optimize identical to value before: exec2 ' + d['exec'])
+
+def law_script_c10(lines, exp):
+    for k, (line, e) in enumerate(zip(lines, exp)):
+        d = fields(e)
+        x = d.get('exec', '')
+        if d.get('chk') == 'ok' and (x.startswith('err UndefinedVariable') or ' FunctionNotFound ' in x + ' ' or ' WrongParameterCount ' in x + ' ') and False:
+            pass
+        if d.get('chk') == 'ok' and (x.startswith('err UndefinedVariable') or ' FunctionNotFound ' in x + ' '):
+            yield (k, line, e, 'validated script never fails with UndefinedVariable / FunctionNotFound')
+
+def law_script_c11(lines, exp):
+    for k, (line, e) in enumerate(zip(lines, exp)):
+        d = fields(e)
+        x = d.get('exec', '')
+        # no variable/call in result position can be told from the protocol line only for plain operator roots; the chkbool stream has the precise proviso
+    return []
+
+LAWS = {'script_c05': law_script_c05, 'script_c10': law_script_c10, 'tmrange': law_tmrange, 'c10_dcall': law_c10_dcall, 'stable': law_stable, 'json_same': law_json_same, 'c05': law_c05, 'c06': law_c06, 'c10': law_c10, 'c10_opt': law_c10_opt, 'c11': law_c11,
         'same': law_expect('same'), 'ok': law_ok, 'no_crash': law_no_crash}
